@@ -46,6 +46,9 @@ def exhaustive(ctx, out):
             tempo.append((t, rng.choice([120000, 60000, 90000, 150000])))
             t += rng.randint(1, 9)
         maps_.append(tempo)
+    # tempo changes beyond 2^31 / 2^32 ticks: the governing event is found by the ticks as written, not by their low 32 bits
+    for far in (2**31 - 2, 2**32 + 192, 2**33 + 5):
+        maps_.append([(0, 120000), (far, 90000), (far + rng.choice([1, 7, 19200]), 150000)])
     if ctx.tier == "thorough":
         for _ in range(3000):
             maps_.append(C01.rand_map(rng, 8)[1])
@@ -55,7 +58,8 @@ def exhaustive(ctx, out):
         if mi % 2 == 1:
             be = C01.rebuilt_publicly(be)  # a map a client assembled itself answers the same
         last = tempo[-1][0]
-        for tick in list(range(-1, min(last, 10) + 3)) + [last - 1, last, last + 1, last + 100]:
+        around = [x for t, _ in tempo for x in (t - 1, t, t + 1)] + [192, 1000, 768000, last % 2**32, last % 2**32 + 5] if last > 2**30 else []
+        for tick in list(range(-1, min(last, 10) + 3)) + [last - 1, last, last + 1, last + 100] + around:
             for h in (range(0, len(tempo) + 2) if len(tempo) <= 6 else [0, 1, 2, len(tempo) - 10, len(tempo) - 9, len(tempo) - 2, len(tempo) - 1, len(tempo)]):
                 if h < 0:
                     continue
@@ -85,8 +89,9 @@ def exhaustive(ctx, out):
             except Exception as e:  # noqa: BLE001
                 want = impl.err_name(e)
             if i != want or (not want.startswith("E") and int(want.split(" ")[1]) != g):
-                out.violation("hint-" + fw.h(rp), f"hint {h} ≤ governing index {g} changed the answer for tick {tick}: {i} vs un-hinted {want}",
-                              rp, observed=i, promised=f"{want} (index {g})")
+                what = (f"hint {h} ≤ governing index {g} changed the answer for tick {tick}: {i} vs un-hinted {want}" if i != want else
+                        f"tick {tick} is governed by tempo event {g} (the last one at or before it), the query — hinted {h} and un-hinted alike — answers {want}")
+                out.violation("hint-" + fw.h(rp), what, rp, observed=i, promised=f"{want} (index {g})")
         else:
             if i != "E ValueError":
                 out.violation("hint-" + fw.h(rp), f"hint {h} beyond the governing event ({g}) of tick {tick} was not rejected: {i}",
